@@ -455,6 +455,14 @@ def _update_zo_file(
     )
     zo_path.write_text("\n".join(zlines))
 
-    _write_file_hash_to_disk(
-        _get_file_hash_path(zdir), _get_file_hash_map(zdir)
+    # Only refresh the hash of the file we just rewrote. Other files may have
+    # been edited since they were last indexed (e.g. when 'db reindex' was
+    # given explicit paths) and MUST still be seen as changed later on.
+    file_hash_path = _get_file_hash_path(zdir)
+    file_to_hash: dict[str, str] = (
+        json.loads(file_hash_path.read_bytes())
+        if file_hash_path.exists()
+        else {}
     )
+    file_to_hash.update(_get_file_hash_map(zdir, paths=[zo_path]))
+    _write_file_hash_to_disk(file_hash_path, file_to_hash)
